@@ -1,4 +1,17 @@
 ---- MODULE MC_JournalWAL ----
+(***************************************************************************)
+(* Constants for JournalWAL.tla.  Measured (TLC 1.8, 4 workers):           *)
+(*   MC_JournalWAL_j.cfg      66 plans   9 628 distinct states (3 874      *)
+(*                            distinct file states), depth 23, 3 s         *)
+(*   MC_JournalWAL_j_big.cfg  40 018 distinct states (15 161 distinct      *)
+(*                            file states), depth 27, 5 s                  *)
+(*   MC_JournalWAL_w.cfg      45 944 distinct states (<= 3 frames), 4 s    *)
+(*   MC_JournalWAL_w_big.cfg  145 400 distinct states (<= 4 frames, at     *)
+(*                            most one defective frame), 6-10 s            *)
+(* Relevance configurations (one rule of the specification removed, TLC    *)
+(* must report the invariant): _j_notrunc and _j_oneseg (RollbackRestores),*)
+(* _w_nocommit (ScanIsCommitted), _w_nosalt (PrefixIsLongest).             *)
+(***************************************************************************)
 EXTENDS JournalWAL
 
 (* Transaction plans: n0 = original size, ns = new size, m = modified pages (page 1 always:    *)
